@@ -111,6 +111,24 @@ def req_cases(tier: str, rng: random.Random) -> List[Dict[str, Any]]:
             if x["api"] == "create_context":
                 x["api"] = "create_keep"
         out.append(dict(kind="req", ps=[a, b]))
+    # two requests of DIFFERENT types on the same socket whose other parameters are all equal
+    def mk(api, tp, **kw):
+        p = dict(tp=tp, number=1, time_unit=0, max_time=0, rot_local=[0, 0, 0], rot_remote=[0, 0, 0], basis_local="", basis_remote="",
+                 rb_local=-1, rb_remote=-1, remote_node=1, socket=0)
+        p.update(kw)
+        p["purpose"] = PURPOSE(p["remote_node"], p["socket"])
+        p["api"] = api
+        return p
+    typed = [("create_keep", "K"), ("create(K)", "K"), ("create_measure", "M"), ("create(M)", "M"), ("create_rsp", "R"), ("create(R)", "R")]
+    for (a1, t1) in typed:
+        for (a2, t2) in typed:
+            if t1 == t2:
+                continue
+            for number, (tu, mt), bl in ((1, (0, 0), ""), (2, (1, 1000), "X"), (1, (0, 0), "X")):
+                kw = dict(number=number, time_unit=tu, max_time=mt)
+                pa = mk(a1, t1, **kw, **({"basis_local": bl} if t1 != "K" and bl else {}))
+                pb = mk(a2, t2, **kw, **({"basis_local": bl} if t2 != "K" and bl else {}))
+                out.append(dict(kind="req", ps=[pa, pb]))
     return out
 
 
@@ -215,6 +233,11 @@ def res_cases(tier: str, rng: random.Random) -> List[Dict[str, Any]]:
             for rep in range(reps):
                 out.append(dict(kind="res", reqs=[dict(api=api, role=role, kind=kind, n=n, node=1 + rep % 2, socket=(0, 3)[rep % 2])],
                                 salt=rng.randrange(1 << 20), expect=bool(rep % 2)))
+    # the same, with the responses handed to the executor as qlink-interface 1.0 objects (the conversion path)
+    for api, role, kind in RES_APIS:
+        for n in (1, 2, 3) if tier != "quick" else (2,):
+            out.append(dict(kind="res", reqs=[dict(api=api, role=role, kind=kind, n=n, node=1 + n % 2, socket=(0, 3)[n % 2])],
+                            salt=rng.randrange(1 << 20), expect=bool(n % 2), q10=True))
     # two requests in one subroutine on different sockets / nodes: results must not mix
     pairs = list(itertools.permutations(RES_APIS, 2))
     rng.shuffle(pairs)
@@ -252,7 +275,7 @@ def _run_res(item):
         if seqmode:
             physs = [physs[0]] * total            # one pair at a time on the same qubit
             ex.meas_script = [0, 1] * 8
-        conn.link = rig.AutoLink(ex, conn.stack, bell=bells, outcomes=outs, fields=fields, stepwise=seqmode)
+        conn.link = rig.AutoLink(ex, conn.stack, bell=bells, outcomes=outs, fields=fields, stepwise=seqmode, qlink10=bool(c.get("q10")))
         handles = []
         ek = dict(expect_phi_plus=c["expect"])
         for r, sock in zip(c["reqs"], socks):
@@ -408,7 +431,7 @@ def run(prop: str, tier: str) -> int:
 
 
 def replay_case(prop, case, tmp):
-    keep = ("kind", "ps", "reqs", "salt", "expect", "reverse")
+    keep = ("kind", "ps", "reqs", "salt", "expect", "reverse", "q10")
     row = _dispatch((1, {k: case[k] for k in keep if k in case}))
     res = C.run_tlc_sharded("EprFields", [row], tmp, shards=1, cfg="EprFields.cfg")
     return res.verdicts[0][1] if res.verdicts else None
